@@ -120,7 +120,7 @@ def check_model(module, cfg, *, need_actions=(), workers=None, timeout=3600, env
     return r
 
 
-def dump_states(module, cfg, *, only=None, workers=None, timeout=3600, env=None, heap="4g", must_pass=True, skip_if=None):
+def dump_states(module, cfg, *, only=None, workers=None, timeout=3600, env=None, heap="4g", must_pass=True, skip_if=None, stride=None):
     """Run TLC with -dump and yield parsed states (dict var -> value).  Returns (TLCResult, list_of_states)."""
     d = scratch_dir("tlcdump_")
     try:
@@ -128,7 +128,7 @@ def dump_states(module, cfg, *, only=None, workers=None, timeout=3600, env=None,
         r = run(module, cfg, workers=workers, dump=path, timeout=timeout, env=env, heap=heap)
         if must_pass and not r.ok:
             raise TLCError("dump run %s/%s failed: %s\n%s" % (module, cfg, r.errors[:3], r.stdout[-4000:]))
-        states = list(tlaval.parse_dump(path + ".dump", only=only, skip_if=skip_if))
+        states = list(tlaval.parse_dump(path + ".dump", only=only, skip_if=skip_if, stride=stride))
         return r, states
     finally:
         shutil.rmtree(d, ignore_errors=True)
@@ -143,12 +143,39 @@ def _trace_shard(args):
     e.update(env or {})
     r = run(module, cfg, workers=1, env=e, timeout=timeout, heap=heap)
     rej = []
-    for m in _RE_REJ.finditer(r.stdout):
+    out = r.stdout
+    pos = 0
+    while True:
+        i = out.find('<<"REJECT",', pos)
+        if i < 0:
+            break
+        # TLC wraps long values over several lines: match the closing >> by bracket counting
+        depth, j, instr = 0, i, False
+        while j < len(out):
+            c = out[j]
+            if instr:
+                if c == "\\":
+                    j += 1
+                elif c == '"':
+                    instr = False
+            elif c == '"':
+                instr = True
+            elif out.startswith("<<", j):
+                depth += 1
+                j += 1
+            elif out.startswith(">>", j):
+                depth -= 1
+                j += 1
+                if depth == 0:
+                    break
+            j += 1
+        text = out[i:j + 1]
+        pos = j + 1
         try:
-            v = tlaval.parse(m.group(0))
+            v = tlaval.parse(text)
             rej.append((v[1], v[2:]))
-        except Exception:  # pragma: no cover
-            rej.append((-1, (m.group(0),)))
+        except Exception as ex:
+            raise TLCError("cannot parse REJECT line %r: %s" % (text[:200], ex))
     return r, rej
 
 
